@@ -32,6 +32,7 @@ func collect(repo string, f *facts) {
 	orderFacts(f)
 	e2eFacts(f)
 	flushFacts(f)
+	distFacts(f)
 }
 
 // ---- C16: Must… / panic sites in constructors ----
@@ -1656,4 +1657,63 @@ func flushFacts(f *facts) {
 		}
 	}
 	f.strs["flush_listener_loop"] = lp
+}
+
+// ---- C05: the path from a connection's parser to the pipeline channels ----
+func oneLine(n ast.Node) string { return strings.Join(strings.Fields(src(n)), " ") }
+
+func bodyStmts(rel, name, recv string) []string {
+	fd := fn(rel, name, recv)
+	if fd == nil || fd.Body == nil {
+		return nil
+	}
+	var out []string
+	for _, st := range fd.Body.List {
+		out = append(out, oneLine(st))
+	}
+	return out
+}
+
+func distFacts(f *facts) {
+	f.note["dist_parse_sink_accept"] = "logParsingReceiverSink.Accept: the record is appended to the connection's buffer; the buffer is handed on when full"
+	f.strs["dist_parse_sink_accept"] = bodyStmts("base/bsupport/logparsingreceiver.go", "Accept", "logParsingReceiverSink")
+	f.note["dist_parse_sink_send"] = "logParsingReceiverSink.sendBuffer: the whole buffer, in order, then emptied"
+	f.strs["dist_parse_sink_send"] = bodyStmts("base/bsupport/logparsingreceiver.go", "sendBuffer", "logParsingReceiverSink")
+	f.note["dist_orch_accept"] = "byKeySetOrchestratorSink.Accept: the records of the buffer in order, each appended to this connection's buffer of its key set"
+	var loop []string
+	if fd := fn("orchestrate/obykeyset/orchestrator.go", "Accept", "byKeySetOrchestratorSink"); fd != nil {
+		inspect(fd.Body, func(n ast.Node) bool {
+			if rs, ok := n.(*ast.RangeStmt); ok {
+				loop = append(loop, "for "+src(rs.Key)+", "+src(rs.Value)+" := range "+src(rs.X))
+				for _, st := range rs.Body.List {
+					loop = append(loop, oneLine(st))
+				}
+				return false
+			}
+			return true
+		})
+	}
+	f.strs["dist_orch_accept"] = loop
+	f.note["dist_cache_append"] = "channelInputBuffer.Append: first statement"
+	if b := bodyStmts("orchestrate/obykeyset/channelinputbuffer.go", "Append", "channelInputBuffer"); len(b) > 0 {
+		f.strs["dist_cache_append"] = b[:1]
+	} else {
+		f.strs["dist_cache_append"] = nil
+	}
+	f.note["dist_cache_flush"] = "channelInputBuffer.Flush: a copy of the whole buffer is sent, the buffer emptied (statements before the select, and the send case)"
+	var fl []string
+	if fd := fn("orchestrate/obykeyset/channelinputbuffer.go", "Flush", "channelInputBuffer"); fd != nil && fd.Body != nil {
+		for _, st := range fd.Body.List {
+			if sel, ok := st.(*ast.SelectStmt); ok {
+				for _, cc := range sel.Body.List {
+					if c, ok := cc.(*ast.CommClause); ok && c.Comm != nil {
+						fl = append(fl, "case "+oneLine(c.Comm))
+					}
+				}
+				continue
+			}
+			fl = append(fl, oneLine(st))
+		}
+	}
+	f.strs["dist_cache_flush"] = fl
 }
